@@ -21,6 +21,7 @@ MAX_PATHS = 20000
 GAP = Fraction(1, 100000)
 
 META = dict(
+    technique='symbolic execution of the real KnotVector code on arbitrary tuples / arbitrary valid states (inductive step) + z3 (LRA) per path; reference predicate decided on the same path',
     bounds=dict(
         quick="constructor: arbitrary tuples of length 2..5 (degree None) and 4..5 (degree given 0..2); "
               "operations: every pattern of degree 0..2 with <=2 distinct interior knots; 1-2 symbolic nodes; "
